@@ -83,8 +83,8 @@ func executeN(sc *scenario, n int) (os []outcome, be *config.Backend) {
 	for k, v := range sc.cquery {
 		req.Query[k] = append([]string(nil), v...)
 	}
-	if sc.body != nil {
-		req.Body = io.NopCloser(strings.NewReader(*sc.body))
+	if rd := sc.bodyReader(); rd != nil {
+		req.Body = rd
 	}
 	_, perr := p(context.Background(), req)
 	mu.Lock()
@@ -127,7 +127,13 @@ func (g *gen) addN(stream string, sc *scenario, n int) {
 	js["observed"] = map[string]interface{}{"attempts": ojs}
 	g.w.Count("stream:" + stream)
 	g.w.Count(fmt.Sprintf("concurrent_calls:%d", n))
-	g.w.Add(emit.App("CStackN", input, emit.Nat(n), emit.List(terms)), js, "", fmt.Sprintf("N|%d|%s", n, sc.canon()), true)
+	// proxy.CloneRequest used to swallow the read error of the body it copies
+	// (fixes/C07-clone-body-read-error.diff)
+	sig := ""
+	if sc.fault != nil && normType(sc.typ) == "TMutation" {
+		sig = "concurrent-clone-body-read-error"
+	}
+	g.w.Add(emit.App("CStackN", input, emit.Nat(n), emit.List(terms)), js, sig, fmt.Sprintf("N|%d|%s", n, sc.canon()), true)
 }
 
 func concurrentCalls(g *gen) {
@@ -140,6 +146,16 @@ func concurrentCalls(g *gen) {
 				cquery: map[string][]string{"page": {"2"}, "query": {"client"}}, chdrs: map[string][]string{"X-A": {"1"}, "Content-Type": {"text/plain"}}}, n)
 			for _, b := range bodies {
 				g.addN("concurrent-calls", &scenario{query: "mutation M { m }", name: "M", typ: "mutation", method: m, vars: mutationDefaults, body: b}, n)
+			}
+		}
+	}
+	// a client body stream that fails: every attempt works on a copy of the request, and the
+	// copies must fail where the original failed
+	for n := 2; n <= 3; n++ {
+		for _, m := range []string{"post", "get"} {
+			for _, pre := range []string{`{"from":"c"}`, `{"from":"c",`} {
+				g.addN("concurrent-calls", &scenario{query: "mutation T { t }", typ: "mutation", method: m, vars: map[string]interface{}{"to": "savings"},
+					body: str(`{"from":"c","to":"landlord"}`), fault: &bodyFault{prefix: pre, err: io.ErrUnexpectedEOF}}, n)
 			}
 		}
 	}
